@@ -197,3 +197,176 @@ def check(ctx, rels):
                         % (q, full, how))
     ctx.ok("frozen-objects", sample={"rule": "module-level objects unchanged after import on the reviewed tree stay unchanged", "sites_looked_at": n,
                                      "reviewed_objects": len(objs), "reviewed_runtime_writes": len(writes)}, nontrivial=False)
+
+
+# ---------------------------------------------------------------------------------------------------------------------------
+# one object handed out by several iterations / several calls
+
+_FRESH_CALLS = ("list", "dict", "set", "bytearray", "collections.OrderedDict", "OrderedDict", "collections.defaultdict", "defaultdict", "collections.deque", "deque")
+_COPY_ESCAPES = ("append", "add", "insert", "appendleft")
+
+
+def _is_fresh_mutable(v):
+    if isinstance(v, (ast.List, ast.Dict, ast.Set)):
+        return True
+    return isinstance(v, ast.Call) and ast.unparse(v.func) in _FRESH_CALLS and not v.args
+
+
+def iteration_aliases(fn):
+    """[(loop, name, escape node)]: a local bound to a new empty list / dict / set OUTSIDE a loop and never rebound inside it, that an
+    iteration both fills in place and hands out as it is (appends it to another container, yields it, stores it): every iteration
+    hands out the SAME object, so what an earlier iteration handed out keeps growing"""
+    out = []
+    if not isinstance(fn, (ast.FunctionDef, ast.AsyncFunctionDef)):
+        return out
+    inner_defs = [x for x in ast.walk(fn) if isinstance(x, (ast.FunctionDef, ast.AsyncFunctionDef, ast.Lambda)) and x is not fn]
+
+    def own_nodes(root):
+        skip = set()
+        for d in inner_defs:
+            if d is not root:
+                skip |= {id(y) for y in ast.walk(d)} - {id(d)}
+        return [n for n in ast.walk(root) if id(n) not in skip]
+    nodes = own_nodes(fn)
+    binds = {}
+    for n in nodes:
+        if isinstance(n, ast.Assign):
+            for t in n.targets:
+                for tt in (t.elts if isinstance(t, (ast.Tuple, ast.List)) else [t]):
+                    if isinstance(tt, ast.Name):
+                        binds.setdefault(tt.id, []).append(n)
+        elif isinstance(n, (ast.AnnAssign, ast.AugAssign)) and isinstance(n.target, ast.Name) and (getattr(n, "value", None) is not None):
+            binds.setdefault(n.target.id, []).append(n)
+        elif isinstance(n, (ast.For, ast.comprehension)):
+            for tt in ast.walk(n.target):
+                if isinstance(tt, ast.Name):
+                    binds.setdefault(tt.id, []).append(n)
+        elif isinstance(n, ast.With):
+            for it in n.items:
+                if it.optional_vars is not None:
+                    for tt in ast.walk(it.optional_vars):
+                        if isinstance(tt, ast.Name):
+                            binds.setdefault(tt.id, []).append(n)
+    loops = [n for n in nodes if isinstance(n, (ast.For, ast.While))]
+    for name, bs in binds.items():
+        fresh = [b for b in bs if isinstance(b, (ast.Assign, ast.AnnAssign)) and b.value is not None and _is_fresh_mutable(b.value)]
+        if not fresh or len(fresh) != len(bs):
+            continue
+        for L in loops:
+            inside = {id(y) for st in L.body for y in ast.walk(st)}
+            if any(id(b) in inside for b in bs):
+                continue                      # rebound inside the loop: a new object per iteration
+            filled, escape = False, None
+            for y in (y for st in L.body for y in ast.walk(st)):
+                if isinstance(y, ast.Call) and isinstance(y.func, ast.Attribute):
+                    if isinstance(y.func.value, ast.Name) and y.func.value.id == name and y.func.attr in MUTATORS:
+                        filled = True
+                    if y.func.attr in _COPY_ESCAPES and any(isinstance(a, ast.Name) and a.id == name for a in y.args) and not (isinstance(y.func.value, ast.Name) and y.func.value.id == name):
+                        escape = escape or y
+                elif isinstance(y, ast.Subscript) and isinstance(y.ctx, ast.Store) and isinstance(y.value, ast.Name) and y.value.id == name:
+                    filled = True
+                elif isinstance(y, (ast.Yield,)) and isinstance(y.value, ast.Name) and y.value.id == name:
+                    escape = escape or y
+                elif isinstance(y, ast.Assign) and isinstance(y.value, ast.Name) and y.value.id == name and any(isinstance(t, (ast.Attribute, ast.Subscript)) for t in y.targets):
+                    escape = escape or y
+            if filled and escape is not None:
+                out.append((L, name, escape))
+    return out
+
+
+def reused_buffers(fn, outer=None):
+    """[(name, node)]: a byte stream the function did not create itself (a captured local of the enclosing function, a module-level
+    object, an attribute of self) that it writes to and reads back with getvalue() without ever truncating it: the bytes of a
+    longer earlier use stay behind the shorter later one"""
+    if not isinstance(fn, (ast.FunctionDef, ast.AsyncFunctionDef)):
+        return []
+    own_streams, alias = set(), {}
+    for n in ast.walk(fn):
+        if isinstance(n, ast.Assign) and len(n.targets) == 1 and isinstance(n.targets[0], ast.Name):
+            if isinstance(n.value, ast.Call) and ast.unparse(n.value.func).endswith("BytesIO"):
+                own_streams.add(n.targets[0].id)
+            elif isinstance(n.value, (ast.Name, ast.Attribute)):
+                alias[n.targets[0].id] = ast.unparse(n.value)
+    outer_streams = set()
+    if outer is not None:
+        for n in ast.walk(outer):
+            if any(n is y for y in ast.walk(fn)):
+                continue
+            if isinstance(n, ast.Assign) and len(n.targets) == 1 and isinstance(n.targets[0], (ast.Name, ast.Attribute)) and isinstance(n.value, ast.Call) and ast.unparse(n.value.func).endswith("BytesIO"):
+                outer_streams.add(ast.unparse(n.targets[0]))
+    out = []
+    reads, truncs = {}, set()
+    for n in ast.walk(fn):
+        if isinstance(n, ast.Call) and isinstance(n.func, ast.Attribute) and isinstance(n.func.value, (ast.Name, ast.Attribute)):
+            r = ast.unparse(n.func.value)
+            r = alias.get(r, r)
+            if n.func.attr == "getvalue":
+                reads.setdefault(r, n)
+            elif n.func.attr == "truncate":
+                truncs.add(r)
+    for r, node in reads.items():
+        if r.split(".")[0] in own_streams:
+            continue
+        if r in outer_streams and r not in truncs:
+            out.append((r, node))
+    return out
+
+
+def check_aliases(ctx, rels):
+    n = 0
+    for rel in rels:
+        try:
+            m = ctx.p.module(rel)
+        except AnalysisError:
+            continue
+        for q, f in sorted(ctx.p.functions.items()):
+            if f.module is not m:
+                continue
+            n += 1
+            for L, name, esc in iteration_aliases(f.node):
+                ctx.bad("shared-accumulator:%s:%s" % (q.split(".", 1)[-1], name), "%s:%d" % (rel, esc.lineno),
+                        "%s: `%s` is created once, outside the loop at line %d, and each iteration both fills it and hands it out (`%s`): every iteration hands out the same object, so the elements of earlier iterations show up in later ones"
+                        % (q, name, L.lineno, ast.unparse(esc)[:60]))
+            outer = f.parent.node if f.parent is not None else (f.cls.methods.get("__init__").node if f.cls is not None and f.cls.methods.get("__init__") is not None else None)
+            for r, node in reused_buffers(f.node, outer):
+                ctx.bad("reused-buffer:%s:%s" % (q.split(".", 1)[-1], r), "%s:%d" % (rel, node.lineno),
+                        "%s reads `%s.getvalue()` from a stream that outlives the call and is never truncated: after a longer use the tail of the earlier bytes stays behind the shorter later ones" % (q, r))
+    ctx.ok("no-object-shared-between-iterations-or-calls", sample={"rule": "accumulators rebound per iteration; outliving streams truncated before reuse", "functions_looked_at": n}, nontrivial=False)
+
+
+def _fresh_binds(fn):
+    """name -> [(assign node, inside a loop?)] for bindings of a new empty list / dict / set; and the names filled in place inside a loop"""
+    loops = [n for n in ast.walk(fn) if isinstance(n, (ast.For, ast.While))]
+    in_loop = set()
+    for L in loops:
+        for st in L.body:
+            in_loop |= {id(y) for y in ast.walk(st)}
+    binds, other, filled = {}, set(), set()
+    for n in ast.walk(fn):
+        if isinstance(n, (ast.Assign, ast.AnnAssign)) and getattr(n, "value", None) is not None:
+            tgts = n.targets if isinstance(n, ast.Assign) else [n.target]
+            for t in tgts:
+                if isinstance(t, ast.Name):
+                    if _is_fresh_mutable(n.value):
+                        binds.setdefault(t.id, []).append((n, id(n) in in_loop))
+                    else:
+                        other.add(t.id)
+        if isinstance(n, ast.Call) and isinstance(n.func, ast.Attribute) and isinstance(n.func.value, ast.Name) and n.func.attr in MUTATORS and id(n) in in_loop:
+            filled.add(n.func.value.id)
+    return binds, other, filled
+
+
+def hoisted_initialisations(code_fn, ref_fn):
+    """names that the reviewed function binds to a new empty container INSIDE a loop (one per iteration) and the function now binds
+    only once, outside every loop, while still filling them inside a loop: the container is no longer emptied between iterations"""
+    if not isinstance(code_fn, (ast.FunctionDef, ast.AsyncFunctionDef)) or not isinstance(ref_fn, (ast.FunctionDef, ast.AsyncFunctionDef)):
+        return []
+    cb, co, cf = _fresh_binds(code_fn)
+    rb, _ro, rf = _fresh_binds(ref_fn)
+    out = []
+    for name, bs in cb.items():
+        if name in co or name not in cf or any(inl for _n, inl in bs):
+            continue
+        if name in rb and name in rf and any(inl for _n, inl in rb[name]):
+            out.append((name, bs[0][0]))
+    return out
